@@ -619,7 +619,14 @@ def main_check(prop, modname, clsname, tier, seed):
                                                             c.line[:160].replace('\t', ' ')))
     nviol = 0
     for (c, io, mo, sig) in viol[:5]:
-        c2, io2, mo2 = shrink(prop, c, io, mo)
+        try:
+            c2, io2, mo2 = shrink(prop, c, io, mo)
+        except DriverError:
+            raise
+        except Exception:  # noqa: BLE001 - a failing shrinker must never lose the violation it was shrinking
+            print('NOTE %s: shrinking failed (%s); the unshrunk case is reported' %
+                  (prop.id, traceback.format_exc(limit=1).strip().splitlines()[-1][:160]))
+            c2, io2, mo2 = c, io, mo
         path = write_replay(prop, dict(c2), io2, mo2, note='impl=%s model=%s sig=%s' % (io2[:200], mo2[:200], sig))
         print('DIVERGENCE %s: %s\n  impl : %s\n  model: %s' % (prop.id, c2.line[:300].replace('\t', ' | '), io2[:300], mo2[:300]))
         print('VIOLATION property=%s replay=%s' % (prop.id, path))
